@@ -84,6 +84,8 @@ def hypergraph_static(level="full"):
     A("H.add_edges_from([[1, 2], [2, 3]])")
     A("H.add_edges_from([[1], [1, 2, 3]])")
     A("H.add_edges_from([[1, 2], [1, 2]])")
+    A("H.add_edges_from([[3, 1, 2], [2, 1]])")
+    A("H.add_edge([3, 1])")
     A("H.add_edges_from([([1, 2], 0), ([2, 3], 2)])")
     A("H.add_edges_from([([1, 2], 2), ([1, 3], 0)])")
     A("H.add_edges_from([([1, 2], 'e'), ([2, 3], 'e')])")
@@ -164,6 +166,12 @@ def hypergraph_deviant():
         "H.add_edges_from([[1, [2]]])",
         "H.add_edges_from([[]])",
         "H.add_edges_from(5)",
+        # one-shot iterators as member collections
+        "H.add_edge(iter([1, 2]))",
+        "H.add_edges_from([iter([1, 2])])",
+        "H.add_edges_from([[1, 2], iter([2, 3])])",
+        "H.add_edges_from([(iter([1, 3]), 7)])",
+        "H.add_edges_from({5: iter([1, 2])})",
         "H.add_node_to_edge(None, 1)",
         "H.add_node_to_edge(0, None)",
         "H.remove_node(9)",
@@ -319,6 +327,10 @@ def dihypergraph_deviant():
         "H.add_edges_from([(([1], [None]), 7)])",
         "H.add_edges_from([(([1], [2]), {'w': 1}), (([None], [2]), {'w': 2})])",
         "H.add_edges_from([(([2], [None]), 7, {'w': 1})])",
+        "H.add_edge((iter([1]), iter([2, 3])))",
+        "H.add_edges_from([(iter([1]), iter([2, 3]))])",
+        "H.add_edges_from({5: (iter([1]), iter([2]))})",
+        "H.add_edges_from([((iter([1, 2]), iter([3])), 7)])",
         "H.add_edges_from([{1, 2}])",
         "H.add_edges_from([([1], [[2]])])",
         "H.add_edges_from(5)",
@@ -383,6 +395,13 @@ def simplicial_static():
         A(f"H.add_simplices_from({{0: [1, 2, 3], 5: [1, 2, 3, 4]}}{kw})")
     A("H.add_simplices_from([[1, 2, 3, 4, 5]], max_order=2)")
     A("H.add_simplices_from([[1, 2, 3, 4, 5]], max_order=1)")
+    # overlapping simplices whose shared faces are written in different member orders
+    A("H.add_simplices_from({'a': [1, 2, 3], 'b': [4, 3, 2]})")
+    A("H.add_simplices_from([[1, 2, 3], [4, 3, 2]])")
+    A("H.add_simplices_from([([3, 1, 2], 7), ([2, 1, 4], 3)], max_order=1)")
+    A("H.add_simplices_from({6: [4, 3, 2, 1], 1: [1, 3, 4]}, max_order=2)")
+    A("H.add_simplex([3, 2, 1])")
+    A("H.add_simplex([4, 2], idx=9)")
     A("H.add_simplices_from([[1, 2], [1, 2], [2, 1]])")
     A("H.add_simplices_from([[1, 2, 3]], c='x')")
     A("H.add_simplices_from({2: [1, 2]}, c='x')")
@@ -424,6 +443,11 @@ def simplicial_deviant():
         "H.add_simplices_from([[1, 2, None]], max_order=0)",
         "H.add_simplices_from(['ab'])",
         "H.add_simplices_from(5)",
+        "H.add_simplex(iter([1, 2, 3]))",
+        "H.add_simplices_from([iter([1, 2, 3])])",
+        "H.add_simplices_from([[1, 2], iter([2, 3, 4])])",
+        "H.add_simplices_from({5: iter([1, 2, 3])})",
+        "H.add_simplices_from([(iter([1, 2, 3]), 7)], max_order=1)",
         "H.add_node(None)",
         "H.remove_node(9)",
         "H.remove_simplex_id(9)",
